@@ -9,7 +9,7 @@
    messages consecutively, so indices are unique).  The channels between the threads are FIFO.
    Model only, no proofs (proofs: Dlt/WritePipelineProofs.v). *)
 From Coq Require Import List NArith Bool.
-From AdltV Require Import Base.Res Base.MachInt Dlt.Frame Dlt.Iter Dlt.Write.
+From AdltV Require Import Base.Res Base.MachInt Dlt.Frame Dlt.Iter Dlt.Write Reader.LowMark Dlt.Chunk.
 From AdltV Require Lifecycle.Model.
 Import ListNotations.
 Open Scope N_scope.
@@ -48,3 +48,22 @@ Definition convert_o (data : bytes) : res wres :=
   | Panic s => Panic s
   | OutOfFuel => OutOfFuel
   end.
+
+(* the same with the reader wiring of convert.rs (get_single_it): the iterator runs over
+   LowMarkBufReader::new(file, BUFREADER_CAPACITY = 512 KiB, DLT_MAX_STORAGE_MSG_SIZE + 4) -- Reader/LowMark.v (fill_buf with
+   its compaction of the unconsumed bytes to a 4096-aligned end, consume), Dlt/Chunk.v (run_iter_rd).  [sched]: the sizes
+   of the file's (possibly short) reads. *)
+Definition BUFREADER_CAPACITY : N := 524288.
+Definition CONVERT_LOW_MARK : N := 65551 + 4.
+Definition convert_o_rd (data : bytes) (sched : list N) : res wres :=
+  match run_iter_rd 0 BUFREADER_CAPACITY CONVERT_LOW_MARK data sched with
+  | Ok (ms, _, _) => write_all (lifecycle_stage ms)
+  | Panic s => Panic s
+  | OutOfFuel => OutOfFuel
+  end.
+
+(* boolean form of the invariant of parsed messages (Dlt/WriteProofs.v: wf_msg), for messages built directly *)
+Definition wf_msgb (m : msg) : bool :=
+  (len (m_std m) <=? 65535) && (len (m_std m) =? std_ext_header_size (m_std m) + blen (m_payload m))
+  && (m_timestamp m <? 4294967296) && (has_timestamp (m_std m) || (m_timestamp m =? 0))
+  && Bool.eqb (is_some (m_ext m)) (has_ext_hdr (m_std m)) && (m_reception_us m / 1000000 <? 4294967296).
